@@ -90,21 +90,21 @@ CLAIMED = {
 # additions made after the first round of claims (appended to the level text)
 ADDED = {
  "C01": " Also: a quarter of the concurrent calls return a value TOGETHER with an error; model assumption `Async` now includes 'the read loops do nothing between two reads that can wait' (extracted facts).",
- "C02": " The loops' non-blocking bodies (`reqLoopBlocksOnlyOnRead`, `respLoopBlocksOnlyOnRead`) are extracted facts under `Async`; workloads include 1300 stalled handlers per side and chains of depth 2600 (no admission limit).",
+ "C02": " The loops' non-blocking bodies (`reqLoopBlocksOnlyOnRead`, `respLoopBlocksOnlyOnRead`) are extracted facts under `Async`; workloads include 1300 stalled handlers per side and chains of depth 2600 (no admission limit). The write wrapper never waits (`ioWrappersNonBlocking`, under `Async`): a caller-side window is model behaviour of M3 — C02_needs_nonblocking_wrappers, C02_window_stalled_handler_blocks_others (witnesses on the flipped skeleton).",
  "C03": " C03_setErr_always_closes, C03_recover_blocks_canonical; C03_read_failure_reaches_setErr: every read error reaches setErr unconditionally and without waiting (no foreign lock, no channel operation); fault cases include calls issued inside the ForRemotes callback, judged before any teardown, and injected errors that wrap context.DeadlineExceeded/Canceled.",
- "C04": " C04_closure_invocations_are_cancellable (the proxy hands the invocation's own context to the stub; release never waits for a running closure) + scenarios: invocation under a deadline, cancel while the passed closure is running.",
+ "C04": " C04_closure_invocations_are_cancellable (the proxy hands the invocation's own context to the stub; release never waits for a running closure) + scenarios: invocation under a deadline, cancel while the passed closure is running; a call ended by its DEADLINE (and by cancel) while a sibling is in flight: sibling, later calls and the link unaffected (suite_c04deadline.go). Model M2: a stub that panics on an outcome of the call (source fact panicSitesCanonical flipped) takes the link down — C04_panicking_on_a_call_outcome_ends_the_link.",
  "C05": " The closure table's mutex is model state (never held in a reachable state of the current tree; witnesses on the flipped skeleton); C05_reflect_call_never_waits; C05_recover_blocks_canonical; raw-peer children (duplicate responses on a live link, bad closure id invoked from a spawned goroutine). Further modules: Props/C05Callee.lean (callee-side containment, model Callee.lean, trace-validated by 19 raw-peer scenarios in child processes: `ce run`), Props/C05Deadlock.lean (no internal wait cycle), Props/C08Live.lean (decoder signals exactly once; done implies signalled; readers can always leave), closure release never waits for a running closure; late frames on an ended stream link in a child process.",
- "C06": " Props/C06Link.lean: terminating a link never crashes, for every interleaving of setErr with in-flight calls (M2 over M1); every other hostile link has a call of ours in flight; zero-parameter exported methods in the zoo; systematic name sweep.",
- "C07": " `Faithful` now includes: the walk is repeated on every request from the object held now (no cache), the argument-count check precedes every access to the parameter list; scenario: the exposed graph is re-pointed between calls.",
- "C08": " Stream model: the silent abort is not a step of the current source (C15_no_silent_abort), decoder done implies readers signalled; C08_envelope_fresh_per_frame; scenarios: envelopes with omitted members, 300 pipelined requests in one chunk, frames after the link ended.",
- "C09": " Workload also returns values together with errors and calls the same remote functions from 8 goroutines at once.",
+ "C06": " Props/C06Link.lean: terminating a link never crashes, for every interleaving of setErr with in-flight calls (M2 over M1); every other hostile link has a call of ours in flight; zero-parameter exported methods in the zoo; systematic name sweep. Props/C08Frames.lean: a read loop that reuses one decode target lets a handler run with a later request's arguments (witness), the per-iteration struct of the current source does not (all pipelines, all schedules); raw-peer child: 80 pipelined requests with 120 KB arguments.",
+ "C07": " `Faithful` now includes: the walk is repeated on every request from the object held now (no cache), the argument-count check precedes every access to the parameter list; scenario: the exposed graph is re-pointed between calls; the method lookup runs on the very value the walk ended on (no Addr(): pointer methods of by-value sub-objects stay unexposed).",
+ "C08": " Stream model: the silent abort is not a step of the current source (C15_no_silent_abort), decoder done implies readers signalled; C08_envelope_fresh_per_frame; scenarios: envelopes with omitted members, 300 pipelined requests in one chunk, frames after the link ended. Props/C08Frames.lean + raw-peer child with 80 pipelined large requests: every request runs with the arguments of its own frame.",
+ "C09": " Workload also returns values together with errors and calls the same remote functions from 8 goroutines at once. Props/C08Frames.lean + raw-peer child with 80 pipelined large requests: every request runs with the arguments of its own frame.",
  "C10": " Props/C10Callee.lean over the callee model, trace-validated (`ce run`) by raw-peer scenarios: every return shape, resolve errors, handler/closure panics (error and non-error values), marshal and write failures.",
- "C11": " C11_invocations_run_outside_the_table_lock + scenarios: 4 concurrent invocations that wait for each other, a closure body that passes a closure on.",
+ "C11": " C11_invocations_run_outside_the_table_lock + scenarios: 4 concurrent invocations that wait for each other, a closure body that passes a closure on; float32 / int8 / uint16 / int32 rows (values float32 holds only approximately) with the float32 result going back.",
  "C12": " Scheduler scenarios closure-call+invoke+response/cancel+late-invoke are replayed on M2 (closure table = closures of in-flight calls; look-up hit/miss sequence compared); exit path 'link already ended'.",
- "C13": " Re-link phase: a new link after a failure gets a fresh id, survivors keep identity and routing.",
- "C14": " The harness samples the number of open transport reads at every disconnect notification (must be 0).",
- "C15": " Post-teardown closure-carrying calls must leave no registration; Props/C08Live.lean (decoder done implies signalled, readers can always leave).",
- "C16": " C16_only_link_failures_end_the_link is a theorem of M2 now (Receive refusing a done context is model behaviour; witness on the flipped skeleton), C16_link_returns_the_slot, C16_proxy_failures_are_fatal; raw-peer children (bad closure id, refused error-response); fail-then-cancel; C16_setErr_waits_for_nobody (setErr takes only its own lock; the loops reach it without waiting); in-callback and context-wrapping fault cases.",
+ "C13": " Re-link phase: a new link after a failure gets a fresh id, survivors keep identity and routing; the new link's context is derived from a handler context of another live link (already carries that link's id) and its handlers still read its own id.",
+ "C14": " The harness samples the number of open transport reads at every disconnect notification (must be 0); all 5 x 4 combinations of set / unset registry-wide and per-link hooks, on both link APIs.",
+ "C15": " Post-teardown closure-carrying calls must leave no registration; Props/C08Live.lean (decoder done implies signalled, readers can always leave); nothing can leave the setup goroutine between the registration and the deferral of the removal.",
+ "C16": " C16_only_link_failures_end_the_link is a theorem of M2 now (Receive refusing a done context, and a stub panicking on a call outcome — fact panicSitesCanonical — are model behaviour; witnesses on the flipped skeletons), C16_link_returns_the_slot, C16_proxy_failures_are_fatal; raw-peer children (bad closure id, refused error-response); fail-then-cancel; C16_setErr_waits_for_nobody (setErr takes only its own lock; the loops reach it without waiting); in-callback and context-wrapping fault cases.",
  "C17": " C17_closure_arglist_is_array + frames of closure invocations (0 and 2 closure arguments) decoded independently.",
 }
 STATE_PROPS = {"C01", "C02", "C03", "C04", "C05", "C06", "C07", "C11", "C12", "C13", "C14", "C15", "C16", "C19", "C20"}
